@@ -10,7 +10,7 @@ def _walk(name, qb, tb):
                     # 2. promise-only (SpecP): only lookup answers are observed, anything the statement allows is accepted
                     dict(name="promise", cfg={"quick": f"MC_DecisionCache_{name}_p.cfg", "thorough": f"MC_DecisionCache_{name}_p_big.cfg"}),
                 ][::-1 if __import__("os").environ.get("C31_PROMISE_FIRST") else 1],
-                budget={"quick": qb, "thorough": tb})
+                budget={"quick": qb, "thorough": tb}, random={"quick": 8, "thorough": 60})
 
 
 PROP = dict(
